@@ -295,6 +295,92 @@ def snap8(ctx: Ctx) -> None:
 
 
 
+def run1_310(ctx: Ctx) -> None:
+    """RUN-1 the 3.9 / 3.10 frame reader (a module the 3.12 suite never imports) treats running and suspended frames consistently.
+    `f_stacktop == 0` marks a running frame.  (a) The top of the valid stack is computed from the raw f_stacktop pointer only
+    where that pointer is non-null, and that computation is bounded from above before memory is read (as SNAP-8); (b) the same
+    test, with the same polarity, chooses between materialising objects from raw addresses (running: ctypes.cast, after trimming
+    to the depth the active blocks guarantee) and matching addresses against gc.get_referents(frame) (suspended); (c) max() over
+    the active blocks is taken only when there are some"""
+    from .opcodes import path_guards_of
+    mod = ctx.P.mod("_lowlevel_cpython_310")
+    fn = mod.fn("inspect_frame")
+
+    def pol_of_running(node: ast.AST) -> Optional[bool]:
+        """polarity under which `node` runs with respect to "f_stacktop == 0" (True: running frames), None if not guarded by it"""
+        out = None
+        for g_, pol in path_guards_of(mod, node, fn):
+            while isinstance(g_, ast.UnaryOp) and isinstance(g_.op, ast.Not):
+                g_, pol = g_.operand, not pol
+            if isinstance(g_, ast.Compare) and len(g_.ops) == 1 and isinstance(g_.left, ast.Attribute) and g_.left.attr == "f_stacktop" and isinstance(g_.comparators[0], ast.Constant) and g_.comparators[0].value == 0:
+                if isinstance(g_.ops[0], ast.Eq):
+                    out = pol
+                elif isinstance(g_.ops[0], ast.NotEq):
+                    out = not pol
+            elif isinstance(g_, ast.Attribute) and g_.attr == "f_stacktop":
+                out = not pol      # truthiness of the pointer: non-null
+        return out
+
+    raw = [a for a in walk_scope(fn) if isinstance(a, ast.Assign) and len(a.targets) == 1 and isinstance(a.targets[0], ast.Name)
+           and any(isinstance(x, ast.Attribute) and x.attr == "f_stacktop" for x in ast.walk(a.value))]
+    refs = [c for c in ast.walk(fn) if isinstance(c, ast.Call) and norm(c.func) == "gc.get_referents"]
+    casts = [c for c in ast.walk(fn) if isinstance(c, ast.Call) and norm(c.func) == "ctypes.cast"]
+    if len(raw) != 1 or not refs or not casts:
+        ctx.R.undecided("RUN-1", f"anchors not found: {len(raw)} computations from f_stacktop, {len(refs)} get_referents, {len(casts)} ctypes.cast")
+        return
+    p_raw = pol_of_running(raw[0])
+    if p_raw is None:
+        ctx.R.undecided("RUN-1", "the stack top is computed from f_stacktop outside any test of that pointer")
+    elif p_raw:
+        ctx.R.fail("RUN-1", mod, raw[0], "the top of the valid stack is computed from the raw f_stacktop pointer exactly when that pointer is NULL (a running frame), and set to the end of the stack area when "
+                   "it is not: every suspended frame is read to the end of its stack area (stale slots), every running frame fails the bounds assertion", construct="f_stacktop test inverted at the stack-top computation")
+    else:
+        ctx.R.ok("RUN-1", "the stack top comes from f_stacktop only where that pointer is non-null")
+        # bounded before the read (SNAP-8 for this reader)
+        tname = norm(raw[0].targets[0])
+        blk = mod.parent_of(raw[0])
+        seq = [b_ for b_ in (getattr(blk, "body", []), getattr(blk, "orelse", [])) if raw[0] in b_]
+        after = seq[0][seq[0].index(raw[0]) + 1:] if seq else []
+        ub = False
+        for a in after:
+            if isinstance(a, ast.Assert):
+                for c in ast.walk(a.test):
+                    if isinstance(c, ast.Compare):
+                        opers = [c.left] + list(c.comparators)
+                        ub = ub or any(norm(o_) == tname and isinstance(c.ops[i], (ast.LtE, ast.Lt)) for i, o_ in enumerate(opers[:-1])) \
+                            or any(norm(o_) == tname and isinstance(c.ops[i], (ast.GtE, ast.Gt)) for i, o_ in enumerate(opers[1:]))
+        if ub:
+            ctx.R.ok("RUN-1", f"{tname} (from raw f_stacktop) is bounded from above right after it is computed")
+        else:
+            ctx.R.fail("RUN-1", mod, raw[0], f"`{tname}` is computed from the raw f_stacktop pointer and not bounded from above before the words up to it are read from memory: a stale pointer makes the reader "
+                       "walk beyond the frame object", construct=f"unbounded {tname} from raw f_stacktop (3.9/3.10 reader)")
+    for what, calls, want in (("gc.get_referents(frame) matching", refs, False), ("ctypes.cast materialisation", casts, True)):
+        p_ = pol_of_running(calls[0])
+        if p_ is None:
+            ctx.R.undecided("RUN-1", f"{what} is not under a test of f_stacktop")
+        elif p_ != want:
+            ctx.R.fail("RUN-1", mod, calls[0], f"{what} is used for {'running' if p_ else 'suspended'} frames; it is the method for {'running' if want else 'suspended'} ones (get_referents does not walk the value "
+                       "stack of a running frame; raw addresses of a suspended frame's dead slots are dangling): contexts of every frame of the affected kind are wrong or the interpreter crashes",
+                       construct=f"{what} under the wrong f_stacktop branch")
+        else:
+            ctx.R.ok("RUN-1", f"{what} is used for {'running' if want else 'suspended'} frames")
+    for mx in [c for c in ast.walk(fn) if isinstance(c, ast.Call) and norm(c.func) == "max" and "blocks" in norm(c) and not any(k.arg == "default" for k in c.keywords)]:
+        gs = []
+        for g_, pol in path_guards_of(mod, mx, fn):
+            while isinstance(g_, ast.UnaryOp) and isinstance(g_.op, ast.Not):
+                g_, pol = g_.operand, not pol
+            if norm(g_) in ("details.blocks", "len(details.blocks)", "len(details.blocks) > 0"):
+                gs.append(pol)
+        if gs and not gs[-1]:
+            ctx.R.fail("RUN-1", mod, mx, "max() over the active blocks is evaluated exactly when there are none (ValueError for every running frame without an active block; the trim limit is 0 when blocks "
+                       "exist, so every manager is lost)", construct="max(... details.blocks) under `not details.blocks`")
+        elif gs:
+            ctx.R.ok("RUN-1", "max() over the active blocks only when there are some")
+        else:
+            ctx.R.undecided("RUN-1", "max() over details.blocks without default is not guarded by their presence")
+
+
+
 def esc3(ctx: Ctx) -> None:
     """ESC-3 every coroutine / async generator the package instantiates for type discovery is closed on every path"""
     n = 0
@@ -967,4 +1053,4 @@ def _glob_findings(fn: ast.AST, name_of, mod: Optional[Mod] = None):
 
 
 C06 = [esc1, esc2, esc3, null1, glob1, cty1]
-C07 = [snap, snap8, thr1, thr2, null1]
+C07 = [snap, snap8, run1_310, thr1, thr2, null1]
